@@ -338,12 +338,18 @@ func (c *VirtualTable) Delete(value sqlite.Value) error {
 }
 
 func (c *VirtualTable) Begin() error {
+	// SQLite calls neither xCommit nor xRollback after a failed xBegin, so
+	// nothing may be left behind when the table refuses the transaction.
+	err := c.common.Begin(c.module.sc.ctx)
+	if err != nil {
+		return toSqlite(err)
+	}
 	if c.module.sc.writeTime.IsZero() {
 		c.module.sc.writeTime = time.Now()
 		c.module.sc.txFixedWriteTime = true
 		c.module.sc.ResetContext()
 	}
-	return toSqlite(c.common.Begin(c.module.sc.ctx))
+	return nil
 }
 
 func (c *VirtualTable) Commit() error {
@@ -357,7 +363,8 @@ func (c *VirtualTable) Commit() error {
 
 func (c *VirtualTable) Sync() error {
 	if c.common.S3Options.ReadOnly {
-		return nil
+		// nothing to store, but the transaction is over
+		return toSqlite(c.common.Rollback())
 	}
 
 	return toSqlite(c.common.Commit(c.module.sc.ctx))
